@@ -33,5 +33,5 @@ def jobs(tier):
     return J
 
 
-META = {'functions': [], 'undecided_part': '',
+META = {'functions': ['_MIR_type_size', 'load_bss_data_section', 'MIR_link (ref/expr data values)'], 'undecided_part': '',
         'trusted_base': ['models/alloc_concrete.h', 'models/libc.h (ghost byte)', 'stager op deunion (work-around for a CBMC union dereference defect)']}
